@@ -337,3 +337,76 @@ Fixpoint sum_incs (m : nat) (l : list (nat * Z)) : Z :=
   | [] => 0
   | (c, n) :: r => (if Nat.eqb c m then n else 0) + sum_incs m r
   end.
+
+(* ================= tasks that are run more than once =================
+   Result.Discard (exec/local.go Discard, exec/bigmachine.go Discard) turns a finished
+   task into a lost one without any failed attempt; the evaluator runs it again
+   when a later computation needs it.  A task is then a list of runs. *)
+
+(* local executor: task.Scope.Reset(nil) precedes EVERY run (local.go:80) *)
+Fixpoint local_runs (w : world) (t : nat) (runs : list (list (nat * Z))) : world * res unit :=
+  match runs with
+  | [] => (w, Ok tt)
+  | l :: r => match local_task w t l with
+              | (w1, Ok _) => local_runs w1 t r
+              | (w1, Panic) => (w1, Panic)
+              end
+  end.
+
+Fixpoint run_local_tasks_runs (w : world) (k : nat) (tasks : list (list (list (nat * Z))))
+  : world * res unit :=
+  match tasks with
+  | [] => (w, Ok tt)
+  | runs :: r => match local_runs w (S k) runs with
+                 | (w1, Ok _) => run_local_tasks_runs w1 (S k) r
+                 | (w1, Panic) => (w1, Panic)
+                 end
+  end.
+
+Definition run_local_runs (reg : nat) (tasks : list (list (list (nat * Z)))) : world * res unit :=
+  let n := length tasks in
+  match run_local_tasks_runs (init reg (S n)) 0 tasks with
+  | (w1, Ok _) => merge_tasks w1 (seq 1 n)
+  | (w1, Panic) => (w1, Panic)
+  end.
+
+(* bigmachine executor, every run on the same worker: the worker-side Task and its
+   Scope live as long as the worker and worker.Run does NOT reset the scope
+   before a run (bigmachine.go:764) - unless [worker_resets], the switch that
+   stands for the repaired code.  Both reply structs are new for every RPC. *)
+Fixpoint bigmachine_runs (worker_resets : bool) (w : world) (wt rw rd t : nat)
+         (runs : list (list (nat * Z))) : world * res unit :=
+  match runs with
+  | [] => (w, Ok tt)
+  | l :: r =>
+      let w0 := reset_nil (reset_nil w rw) rd in
+      let w0' := if worker_resets then reset_nil w0 wt else w0 in
+      match bigmachine_task w0' wt rw rd t l with
+      | (w1, Ok _) => bigmachine_runs worker_resets w1 wt rw rd t r
+      | (w1, Panic) => (w1, Panic)
+      end
+  end.
+
+Fixpoint run_bigmachine_tasks_runs (worker_resets : bool) (w : world) (k : nat)
+         (tasks : list (list (list (nat * Z)))) : world * res unit :=
+  match tasks with
+  | [] => (w, Ok tt)
+  | runs :: r =>
+      let b := (4 * k)%nat in
+      match bigmachine_runs worker_resets w (2 + b) (3 + b) (4 + b) (1 + b) runs with
+      | (w1, Ok _) => run_bigmachine_tasks_runs worker_resets w1 (S k) r
+      | (w1, Panic) => (w1, Panic)
+      end
+  end.
+
+Definition run_bigmachine_runs (worker_resets : bool) (reg : nat)
+           (tasks : list (list (list (nat * Z)))) : world * res unit :=
+  let n := length tasks in
+  match run_bigmachine_tasks_runs worker_resets (init reg (1 + 4 * n)) 0 tasks with
+  | (w1, Ok _) => merge_tasks w1 (map (fun k => (1 + 4 * k)%nat) (seq 0 n))
+  | (w1, Panic) => (w1, Panic)
+  end.
+
+(* the increments of the last run of every task *)
+Definition last_runs (tasks : list (list (list (nat * Z)))) : list (nat * Z) :=
+  concat (map (fun runs : list (list (nat * Z)) => last runs []) tasks).
